@@ -1205,7 +1205,7 @@ fn occupancy_image(enc: Enc) -> Image {
     let mut img = image_from_bytes(&format!("tiny-full/{}", enc.name()), b.bytes, None, &[".dynsym", ".absent"], 64);
     let base = img.shdr_pool.len();
     // filler headers: distinct one-byte ranges [i, i+1)
-    for i in 0..80u64 {
+    for i in 0..128u64 {
         img.shdr_pool.push(SectionHeader { sh_name: 0, sh_type: abi::SHT_PROGBITS, sh_flags: 0, sh_addr: 0, sh_offset: 100 + i, sh_size: 1, sh_link: 0, sh_info: 0, sh_addralign: 1, sh_entsize: 0 });
     }
     img.names.push(format!("{}", base)); // remember where the fillers start
